@@ -31,6 +31,8 @@ func runC01(c *Ctx, r *Report) {
 	optionForwarding(c, r, "R-C01.7", append(constructorLoaderSpecs(), constructorLogSpecs()...), "SortFn")
 	r.Doc("R-C01.8", "no element of a list that decides heads or order is skipped: a slice is not shortened in place inside the index loop that walks it unless the index steps back")
 	removalWhileIterating(c, r, "R-C01.8")
+	r.Doc("R-C01.9", "the loops of the merge (candidates, validation, apply, head filters, map copies) process every element")
+	loopsComplete(c, r, "R-C01.9", func(fn *Fn) bool { return rootNamed(fn, "Join", "difference", "FindHeads", "NewOrderedMapFromEntries", "Merge", "Copy", "Slice", "Keys") || inPkgs(c.P, fn, "entry/sorting") }, "part of the candidates, links or heads is left out of the merge, so the result depends on what was left out — replicas that merged in another order disagree")
 	join := p.FuncI("", "IPFSLog", "Join")
 
 	// ---- R-C01.1
